@@ -24,39 +24,45 @@ def check_lanczos(ctx, A, v, m, sig_extra=()):
         out = ptn.lanczos_iteration(Afunc, v, m)
     if any(issubclass(w.category, RuntimeWarning) for w in wl):
         ctx.event('lanczos_breakdown_warning')
-    if not ctx.ok('lanczos.returns-triple', isinstance(out, tuple) and len(out) == 3, 'must return (alpha, beta, V)', detail):
+    return verify_lanczos(ctx, A, v, v0, m, out, calls[0], detail)
+
+
+def verify_lanczos(ctx, A, v, v0, m, out, ncalls, detail, s=False):
+    """Oracle over one observed lanczos_iteration call: A dense matrix of the linear map, v the live start vector, v0 its copy from before."""
+    n = len(v0)
+    if not ctx.ok('lanczos.returns-triple', isinstance(out, tuple) and len(out) == 3, 'must return (alpha, beta, V)', detail, s):
         return
     al, be, V = (np.asarray(x) for x in out)
     k = len(al) if al.ndim == 1 else -1
     if not ctx.ok('lanczos.sizes', al.ndim == 1 and be.ndim == 1 and V.ndim == 2 and 1 <= k <= m and len(be) == k - 1 and V.shape == (n, k),
-                  f'sizes alpha{al.shape} beta{be.shape} V{V.shape} for n={n}, m={m}', detail):
+                  f'sizes alpha{al.shape} beta{be.shape} V{V.shape} for n={n}, m={m}', detail, s):
         return
-    ctx.ok('lanczos.start-unmodified', np.array_equal(v, v0), 'start vector modified', detail)
-    ctx.ok('lanczos.alpha-real', not np.iscomplexobj(al) and not np.iscomplexobj(be) and bool(np.all(np.isfinite(al))), 'alpha/beta must be real and finite', detail)
-    ctx.ok('lanczos.beta-positive', bool(np.all(be > 0)), f'beta not positive: {be}', detail)
-    ctx.ok('lanczos.afunc-calls', calls[0] == k, f'Afunc called {calls[0]} times for k={k}', detail)
+    ctx.ok('lanczos.start-unmodified', np.array_equal(v, v0), 'start vector modified', detail, s)
+    ctx.ok('lanczos.alpha-real', not np.iscomplexobj(al) and not np.iscomplexobj(be) and bool(np.all(np.isfinite(al))), 'alpha/beta must be real and finite', detail, s)
+    ctx.ok('lanczos.beta-positive', bool(np.all(be > 0)), f'beta not positive: {be}', detail, s)
+    ctx.ok('lanczos.afunc-calls', ncalls == k, f'Afunc called {ncalls} times for k={k}', detail, s)
     nA = max(np.linalg.norm(A, 2), 1e-300)
-    ctx.close('lanczos.unit-columns', np.abs(np.linalg.norm(V, axis=0) - 1).max(), 1e-10, 'Lanczos vectors not normalised', detail)
-    ctx.close('lanczos.first-vector', np.linalg.norm(V[:, 0] - v0 / np.linalg.norm(v0)), 1e-12, 'V[:,0] != v/|v|', detail)
+    ctx.close('lanczos.unit-columns', np.abs(np.linalg.norm(V, axis=0) - 1).max(), 1e-10, 'Lanczos vectors not normalised', detail, s)
+    ctx.close('lanczos.first-vector', np.linalg.norm(V[:, 0] - v0 / np.linalg.norm(v0)), 1e-12, 'V[:,0] != v/|v|', detail, s)
     T = np.diag(al) + np.diag(be, 1) + np.diag(be, -1)
     if k > 1:
-        ctx.close('lanczos.three-term-recurrence', np.abs(A @ V[:, :k - 1] - V @ T[:, :k - 1]).max() / nA, 1e-10, 'A V != V T on the leading columns', detail)
+        ctx.close('lanczos.three-term-recurrence', np.abs(A @ V[:, :k - 1] - V @ T[:, :k - 1]).max() / nA, 1e-10, 'A V != V T on the leading columns', detail, s)
         # <v_j, w_j> with w_j = beta_j v_{j+1} the un-normalised new direction (scale-free form: beyond the exhaustion point
         # beta_j ~ rounding level and v_{j+1} is amplified noise, which the property does not constrain)
         ctx.close('lanczos.local-orthogonality', max(abs(np.vdot(V[:, j], V[:, j + 1])) * be[j] for j in range(k - 1)) / nA, 1e-10,
-                  'new direction not orthogonal to the previous vector', detail)
-    ctx.close('lanczos.alpha-is-rayleigh', np.abs(np.real(np.einsum('ij,ij->j', V.conj(), A @ V)) - al).max() / nA, 1e-10, 'alpha_j != v_j^H A v_j', detail)
+                  'new direction not orthogonal to the previous vector', detail, s)
+    ctx.close('lanczos.alpha-is-rayleigh', np.abs(np.real(np.einsum('ij,ij->j', V.conj(), A @ V)) - al).max() / nA, 1e-10, 'alpha_j != v_j^H A v_j', detail, s)
     # independent Krylov dimension
     res = kr.krylov_residuals(A, v0, m + 1)
     kd = kr.krylov_dim(res)
     if k < m:
         # early return only if the Krylov space is exhausted at k
         rk = res[k - 1] if k - 1 < len(res) else 0.0
-        ctx.close('lanczos.early-return-justified', rk, 1e-8, f'returned k={k} < m={m} although the residual after {k} vectors is not ~0', detail)
+        ctx.close('lanczos.early-return-justified', rk, 1e-8, f'returned k={k} < m={m} although the residual after {k} vectors is not ~0', detail, s)
         ctx.event('lanczos_early_return')
     margin = min(res[:m - 1]) if m > 1 and len(res) >= m - 1 else (np.inf if m == 1 else 0.0)
     if margin > 1e-5:
-        ctx.ok('lanczos.full-length-when-not-exhausted', k == m, f'Krylov dimension >= {m} (margin {margin:.1e}) but k={k}', detail)
+        ctx.ok('lanczos.full-length-when-not-exhausted', k == m, f'Krylov dimension >= {m} (margin {margin:.1e}) but k={k}', detail, s)
     # orthonormality / projection on the leading part, in the conditioned class
     kk = min(k, kd)
     ind = kr.paige_indicator(al[:kk], be[:kk - 1])
@@ -65,8 +71,8 @@ def check_lanczos(ctx, A, v, m, sig_extra=()):
     proj = np.abs(V[:, :kk].conj().T @ A @ V[:, :kk] - T[:kk, :kk]).max() / nA
     # demanded in every class: the iteration re-orthogonalises (repository fix 3c1fa1a); the conditioning class is recorded as coverage
     ctx.event('lanczos_converged_class' if ind < COND else 'lanczos_conditioned_class')
-    ctx.close('lanczos.orthonormal', orth, 1e-8, f'V^H V != I on the leading {kk} vectors (conditioning indicator {ind:.1e})', detail)
-    ctx.close('lanczos.projection', proj, 1e-8, f'V^H A V != T on the leading {kk} vectors (conditioning indicator {ind:.1e})', detail)
+    ctx.close('lanczos.orthonormal', orth, 1e-8, f'V^H V != I on the leading {kk} vectors (conditioning indicator {ind:.1e})', detail, s)
+    ctx.close('lanczos.projection', proj, 1e-8, f'V^H A V != T on the leading {kk} vectors (conditioning indicator {ind:.1e})', detail, s)
     return k, kd, ind
 
 
@@ -84,41 +90,47 @@ def check_arnoldi(ctx, A, v, m):
         out = ptn.arnoldi_iteration(Afunc, v, m)
     if any(issubclass(w.category, RuntimeWarning) for w in wl):
         ctx.event('arnoldi_breakdown_warning')
-    if not ctx.ok('arnoldi.returns-pair', isinstance(out, tuple) and len(out) == 2, 'must return (H, V)', detail):
+    return verify_arnoldi(ctx, A, v, v0, m, out, calls[0], detail)
+
+
+def verify_arnoldi(ctx, A, v, v0, m, out, ncalls, detail, s=False):
+    n = len(v0)
+    if not ctx.ok('arnoldi.returns-pair', isinstance(out, tuple) and len(out) == 2, 'must return (H, V)', detail, s):
         return
     H, V = (np.asarray(x) for x in out)
     k = H.shape[0] if H.ndim == 2 else -1
     if not ctx.ok('arnoldi.sizes', H.ndim == 2 and V.ndim == 2 and 1 <= k <= m and H.shape == (k, k) and V.shape == (n, k),
-                  f'sizes H{H.shape} V{V.shape} for n={n}, m={m}', detail):
+                  f'sizes H{H.shape} V{V.shape} for n={n}, m={m}', detail, s):
         return
     nA = max(np.linalg.norm(A, 2), 1e-300)
-    ctx.ok('arnoldi.start-unmodified', np.array_equal(v, v0), 'start vector modified', detail)
-    ctx.ok('arnoldi.afunc-calls', calls[0] == k, f'Afunc called {calls[0]} times for k={k}', detail)
-    ctx.ok('arnoldi.hessenberg', not np.any(np.tril(H, -2)), 'H not upper Hessenberg', detail)
+    ctx.ok('arnoldi.start-unmodified', np.array_equal(v, v0), 'start vector modified', detail, s)
+    ctx.ok('arnoldi.afunc-calls', ncalls == k, f'Afunc called {ncalls} times for k={k}', detail, s)
+    ctx.ok('arnoldi.hessenberg', not np.any(np.tril(H, -2)), 'H not upper Hessenberg', detail, s)
     sub = np.diag(H, -1)
-    ctx.ok('arnoldi.subdiagonal-positive', bool(np.all(np.abs(sub.imag) == 0) and np.all(sub.real > 0)), f'subdiagonal not positive real: {sub}', detail)
-    ctx.close('arnoldi.unit-columns', np.abs(np.linalg.norm(V, axis=0) - 1).max(), 1e-10, 'Arnoldi vectors not normalised', detail)
-    ctx.close('arnoldi.first-vector', np.linalg.norm(V[:, 0] - v0 / np.linalg.norm(v0)), 1e-12, 'V[:,0] != v/|v|', detail)
+    ctx.ok('arnoldi.subdiagonal-positive', bool(np.all(np.abs(sub.imag) == 0) and np.all(sub.real > 0)), f'subdiagonal not positive real: {sub}', detail, s)
+    ctx.close('arnoldi.unit-columns', np.abs(np.linalg.norm(V, axis=0) - 1).max(), 1e-10, 'Arnoldi vectors not normalised', detail, s)
+    ctx.close('arnoldi.first-vector', np.linalg.norm(V[:, 0] - v0 / np.linalg.norm(v0)), 1e-12, 'V[:,0] != v/|v|', detail, s)
     if k > 1:
-        ctx.close('arnoldi.recurrence', np.abs(A @ V[:, :k - 1] - V @ H[:, :k - 1]).max() / nA, 1e-10, 'A V != V H on the leading columns', detail)
-    res = kr.krylov_residuals(A, v0, m + 1)
+        ctx.close('arnoldi.recurrence', np.abs(A @ V[:, :k - 1] - V @ H[:, :k - 1]).max() / nA, 1e-10, 'A V != V H on the leading columns', detail, s)
+    res, Qref = kr.krylov_residuals(A, v0, m + 1, basis=True)
     kd = kr.krylov_dim(res)
     if k < m:
         rk = res[k - 1] if k - 1 < len(res) else 0.0
-        ctx.close('arnoldi.early-return-justified', rk, 1e-8, f'returned k={k} < m={m} although the Krylov space is not exhausted', detail)
+        ctx.close('arnoldi.early-return-justified', rk, 1e-8, f'returned k={k} < m={m} although the Krylov space is not exhausted', detail, s)
         ctx.event('arnoldi_early_return')
     margin = min(res[:m - 1]) if m > 1 and len(res) >= m - 1 else (np.inf if m == 1 else 0.0)
     if margin > 1e-5:
-        ctx.ok('arnoldi.full-length-when-not-exhausted', k == m, f'Krylov dimension >= {m} but k={k}', detail)
+        ctx.ok('arnoldi.full-length-when-not-exhausted', k == m, f'Krylov dimension >= {m} but k={k}', detail, s)
     kk = min(k, kd)
-    # modified Gram-Schmidt loses orthogonality proportionally to the conditioning of the Krylov basis: 1e-8 is demanded where every
-    # residual of the leading part exceeds 1e-3 of ||A||, a bound growing like 1e-14 / min_residual^2 below that
+    # modified Gram-Schmidt loses orthogonality proportionally to the conditioning of the Krylov basis (loss <= c eps cond([v, A V])):
+    # 1e-8 is demanded where every residual of the leading part exceeds 1e-3 of ||A|| and the basis condition number (from the
+    # independent reference basis) is below 1e6; the bound grows like 1e-14 / min_residual^2 resp. 1e-14 * cond beyond that
     if kk >= 1:
         mr = 1.0 if kk == 1 else min(min(res[:kk - 1]), 1.0)
-        tol_o = max(1e-8, 1e-14 / mr ** 2)
+        tol_o = max(1e-8, 1e-14 / mr ** 2, 1e-14 * kr.basis_condition(A, v0, Qref, min(kk, Qref.shape[1] + 1)))
         if tol_o <= 1e-4:
-            ctx.close('arnoldi.orthonormal', np.abs(V[:, :kk].conj().T @ V[:, :kk] - np.identity(kk)).max(), tol_o, 'V^H V != I', detail)
-            ctx.close('arnoldi.projection', np.abs(V[:, :kk].conj().T @ A @ V[:, :kk] - H[:kk, :kk]).max() / nA, tol_o, 'V^H A V != H', detail)
+            ctx.close('arnoldi.orthonormal', np.abs(V[:, :kk].conj().T @ V[:, :kk] - np.identity(kk)).max(), tol_o, 'V^H V != I', detail, s)
+            ctx.close('arnoldi.projection', np.abs(V[:, :kk].conj().T @ A @ V[:, :kk] - H[:kk, :kk]).max() / nA, tol_o, 'V^H A V != H', detail, s)
         else:
             ctx.skip('arnoldi.orthonormal')
 
@@ -217,11 +229,114 @@ def f6_case(ctx, idx, rng):
     check_arnoldi(ctx, A + 0.3 * rng.normal(size=(n, n)) / np.sqrt(n), v, n)
 
 
+def materialise(Afunc, n):
+    """Dense matrix of a matrix-free linear map (column j = Afunc(e_j))."""
+    A = np.zeros((n, n), dtype=complex)
+    for j in range(n):
+        e = np.zeros(n, dtype=complex)
+        e[j] = 1
+        A[:, j] = np.asarray(Afunc(e)).reshape(-1)
+    return A
+
+
+def insitu_monitors(ctx, counts, nmax=320):
+    """around-functions for lanczos_iteration / arnoldi_iteration observing real call sites (matrix-free local Hamiltonians)."""
+    def around_lanczos(orig, Afunc, vstart, numiter):
+        n = len(vstart)
+        calls = [0]
+
+        def counted(x):
+            calls[0] += 1
+            return Afunc(x)
+        v0 = np.array(vstart, copy=True)
+        out = orig(counted, vstart, numiter)
+        counts['lanczos'] = counts.get('lanczos', 0) + 1
+        if n > nmax:
+            ctx.skip('lanczos.three-term-recurrence')
+            return out
+        A = materialise(Afunc, n)
+        nA = np.linalg.norm(A, 2)
+        if nA == 0 or np.linalg.norm(A - A.conj().T, 2) > 1e-9 * nA:
+            counts['non-hermitian-or-zero'] = counts.get('non-hermitian-or-zero', 0) + 1
+            return out
+        verify_lanczos(ctx, A, vstart, v0, numiter, out, calls[0], {'n': n, 'm': numiter, 'A': A, 'v': v0}, True)
+        return out
+
+    def around_arnoldi(orig, Afunc, vstart, numiter):
+        n = len(vstart)
+        calls = [0]
+
+        def counted(x):
+            calls[0] += 1
+            return Afunc(x)
+        v0 = np.array(vstart, copy=True)
+        out = orig(counted, vstart, numiter)
+        counts['arnoldi'] = counts.get('arnoldi', 0) + 1
+        if n > nmax:
+            ctx.skip('arnoldi.recurrence')
+            return out
+        A = materialise(Afunc, n)
+        if np.linalg.norm(A, 2) == 0:
+            return out
+        verify_arnoldi(ctx, A, vstart, v0, numiter, out, calls[0], {'n': n, 'm': numiter, 'A': A, 'v': v0}, True)
+        return out
+    return [('pytenet.krylov.lanczos_iteration', around_lanczos), ('pytenet.krylov.arnoldi_iteration', around_arnoldi)]
+
+
+def insitu_case(ctx, idx, rng):
+    """Real call sites: the site-local and bond-local effective Hamiltonians of TDVP and DMRG (block-sparse vectors confined to charge
+    sectors, Krylov spaces that exhaust early, numiter above and below the local dimension) and expm_krylov with hermitian=False."""
+    from .. import gen, monitor, refs
+    counts = {}
+    name, L, p, H = gen.pick_model(rng, maxdim=512, Lmax=6)
+    prof = str(rng.choice(['random', 'max', 'over', 'one']))
+    psi = gen.rand_mps(rng, H.qd, L, prof, Dmax=4)
+    if np.linalg.norm(refs.dense_state(psi.A)) == 0:
+        psi = gen.rand_mps(rng, H.qd, L, 'max', Dmax=4)
+        if np.linalg.norm(refs.dense_state(psi.A)) == 0:
+            return
+    op = str(rng.choice(['tdvp1', 'tdvp2', 'dmrg1', 'dmrg2', 'expm-general']))
+    m = int(rng.choice([1, 2, 3, 5, 8, 13, 25]))
+    ctx.case(('insitu', name, prof, op, 'm<=3' if m <= 3 else 'm>3'), sample={'model': name, 'L': L, 'op': op, 'numiter': m})
+    mons = insitu_monitors(ctx, counts)
+    with monitor.attached(*mons[0]), monitor.attached(*mons[1]), warnings.catch_warnings():
+        warnings.simplefilter('ignore')
+        psi.orthonormalize('left' if op.startswith('dmrg') else 'right') if op != 'expm-general' else None
+        if op == 'tdvp1':
+            ptn.integrate_local_singlesite(H, psi, complex(rng.choice([0.1j, 0.05, 0.02 + 0.1j])), 1, numiter_lanczos=m)
+        elif op == 'tdvp2':
+            ptn.integrate_local_twosite(H, psi, 0.1j, 1, numiter_lanczos=m, tol_split=float(rng.choice([0, 1e-8])))
+        elif op == 'dmrg1':
+            ptn.calculate_ground_state_local_singlesite(H, psi, 1, numiter_lanczos=m)
+        elif op == 'dmrg2':
+            ptn.calculate_ground_state_local_twosite(H, psi, 1, numiter_lanczos=m)
+        else:
+            A = refs.dense_operator(H.A)
+            v = refs.dense_state(psi.A)
+            if rng.random() < 0.5:
+                A = A + 0.2j * A @ A
+            ptn.expm_krylov(lambda x: A @ x, v, 0.3, min(m, len(v)), hermitian=bool(np.allclose(A, A.conj().T)) and rng.random() < 0.5)
+    for k, c in counts.items():
+        ctx.event('insitu_' + k + '_calls', c)
+    if not counts:
+        ctx.event('insitu_no_call')
+
+
+def soak_case(ctx, idx, rng):
+    """The repository's own test-suite with the Krylov oracles attached to every call of lanczos_iteration / arnoldi_iteration."""
+    from .. import soak
+    counts = {}
+    ctx.case(('soak', 'repository-test-suite'), sample={'functions_monitored': ['lanczos_iteration', 'arnoldi_iteration']})
+    soak.run_suite(ctx, insitu_monitors(ctx, counts, nmax=260))
+    for k, c in counts.items():
+        ctx.event('soak_' + k + '_calls', c)
+
+
 SPEC = {
     'id': 'C14',
     'rule': ('grid: every (n, m) with 1<=n<=10, 1<=m<=n+5 x spectra (separated, degenerate, clustered, Gaussian) x starts (generic, real, '
              'structural / rotated invariant subspace, eigenvector) x real/complex, Lanczos on the Hermitian matrix and Arnoldi on a general or '
-             'the same matrix; large: n in {20,50,120,300}, m<=24 and long runs m up to 96; F6 cases n=m in {32,48,64}. The always-on relations (sizes, real alpha, '
+             'the same matrix; large: n in {20,50,120,300}, m<=24 and long runs m up to 96; F6 cases n=m in {32,48,64}; in situ: every lanczos/arnoldi call raised by one/two-site TDVP and DMRG sweeps (site-local and bond-local effective Hamiltonians materialised column by column, block-sparse start vectors, numiter 1..25 below and above the local dimension), by expm_krylov on general matrices, and (thorough) by the repository test-suite. The always-on relations (sizes, real alpha, '
              'beta>0, unit norms, three-term recurrence, local orthogonality, Afunc call count, justified early return, full length when '
              'the independent re-orthogonalised Krylov dimension is >= m with margin) are demanded everywhere; and so are global '
              'orthonormality and V^H A V = T on the leading min(k, Krylov dimension) vectors (the conditioning indicator min beta_j|s_ji|/||T|| '
@@ -236,6 +351,8 @@ SPEC = {
         Workload('large', large_case, quick=300, thorough=36000),
         Workload('held-results', held_results_case, quick=300, thorough=20000),
         Workload('f6', f6_case, quick=6, thorough=288),
+        Workload('insitu', insitu_case, quick=120, thorough=8000),
+        Workload('suite-soak', soak_case, quick=0, thorough=1, shardable=False),
     ],
     'shards': {'quick': 1, 'thorough': 16},
     'assumptions': ['reference Krylov dimension from a twice re-orthogonalised Arnoldi process; thresholds 1e-8 (exhausted) and 1e-5 (margin)'],
